@@ -282,3 +282,29 @@ def write_evidence(prop, tier, seed, coverage, assumptions, wall_s, violations):
     with open(os.path.join(VERIF, "evidence", prop + ".json"), "w") as f:
         json.dump(ev, f, indent=1, default=str)
     return ev
+
+
+class _Limit(Exception):
+    pass
+
+
+def _limit_alarm(*a):
+    raise _Limit()
+
+
+def limited(fn, seconds, default=None, stats=None):
+    """fn() under a wall-clock limit (SIGALRM): a case on which the *implementation* does not come back in time
+    (e.g. an exponential merge of overlapping restrictions at problem construction) is skipped and counted, it never
+    blocks a check.  Not re-entrant: do not nest inside another alarm-based guard."""
+    import signal
+    old = signal.signal(signal.SIGALRM, _limit_alarm)
+    signal.alarm(seconds)
+    try:
+        return fn()
+    except _Limit:
+        if stats is not None:
+            stats["timeouts"] = stats.get("timeouts", 0) + 1
+        return default
+    finally:
+        signal.alarm(0)
+        signal.signal(signal.SIGALRM, old)
